@@ -1,4 +1,5 @@
 import SctpVerif.Proofs.Receiver.Credit
+import SctpVerif.Proofs.Receiver.Bound
 import SctpVerif.Props.C05
 /-!
 # C11 at association level — the advertised window is buffer minus bytes held; admission is window-bounded
@@ -113,6 +114,46 @@ theorem C11_zero_window_admission (maxBuf maxEntries : BitVec 32) (il f g : Bool
   · rw [h0] at hc; simp at hc
   · exact hl
 
+/-- ✱ **inbound memory is bounded against a peer that ignores the window.** For ANY op list — any chunks, any
+TSNs, duplicates, FORWARD-TSNs, resets, streams never read — whose DATA chunks carry at most `M` user bytes each
+(`M ≤ 65519` on the wire), the user bytes held by the streams registered in the association never exceed
+`buffer + maxTSNOffset · M`, with `maxTSNOffset ≤ 40000` the tracking window of the receive queue.
+Why: with credit left a stored chunk leaves the total below `buffer + M`; at zero credit a chunk is stored only
+into an unset slot below the highest TSN received, there are fewer than `maxTSNOffset` such slots, and nothing but
+storing above the highest TSN (impossible at zero credit) creates new ones (`RecvQ.unset`).
+Side conditions: `buffer + 40000·M < 2^32` (the credit is computed in `uint32`) and fewer than 2^63 user bytes
+in total. The bound is about the REGISTERED streams: bytes of streams the peer reset while unread are not
+counted by the implementation either (D13), so a peer that resets and re-opens streams can exceed it. -/
+theorem C11_bytes_bound (M : Nat) (maxBuf maxEntries : BitVec 32) (il f g : Bool) (am : Int) (t : BitVec 32) (ops : List Op)
+    (hM : ∀ cs, Op.pkt cs ∈ ops → ∀ ch ∈ cs, chunkBytes ch ≤ M)
+    (hsmall : maxBuf.toNat + 40000 * M < 2^32) (hb : (ops.map opBytes).sum < 2^63) :
+    let s := run (init maxBuf maxEntries il f g am t) ops
+    heldRegistered s ≤ maxBuf.toNat + s.pq.maxOff.toNat * M ∧ s.pq.maxOff.toNat ≤ 40000 ∧ heldRegistered s < 2^32 := by
+  intro s
+  have h0 := init_binv M maxBuf maxEntries il f g am t hsmall
+  have h := run_binv ops h0 hM (by omega)
+  have hmb : s.maxBuf = maxBuf := by show (run _ ops).maxBuf = _; rw [run_maxBuf]; rfl
+  have hbd : heldRegistered s ≤ s.maxBuf.toNat + s.pq.maxOff.toNat * M := h.bound
+  have hmo : s.pq.maxOff.toNat ≤ 40000 := (run_pq_inv maxBuf maxEntries il f g am t ops).2
+  rw [hmb] at hbd
+  refine ⟨hbd, hmo, ?_⟩
+  have := Nat.mul_le_mul_right M hmo
+  omega
+
+/-- the credit formula without the separate no-wrap hypothesis: under the sizing condition of `C11_bytes_bound` the
+a_rwnd of every SACK is the buffer minus the user bytes held by the registered streams, in every reachable state. -/
+theorem C11_credit_formula_bounded (M : Nat) (maxBuf maxEntries : BitVec 32) (il f g : Bool) (am : Int) (t : BitVec 32)
+    (ops : List Op) (hM : ∀ cs, Op.pkt cs ∈ ops → ∀ ch ∈ cs, chunkBytes ch ≤ M)
+    (hsmall : maxBuf.toNat + 40000 * M < 2^32) (hb : (ops.map opBytes).sum < 2^63) :
+    let s := run (init maxBuf maxEntries il f g am t) ops
+    (credit s).toNat = maxBuf.toNat - heldRegistered s ∧
+    ∀ cum arw gaps dups, Out.sack cum arw gaps dups ∈ (gather s).2.1 → arw.toNat = maxBuf.toNat - heldRegistered s := by
+  intro s
+  obtain ⟨_, _, hlt⟩ := C11_bytes_bound M maxBuf maxEntries il f g am t ops hM hsmall hb
+  obtain ⟨_, h⟩ := C11_credit_formula maxBuf maxEntries il f g am t ops hb
+  obtain ⟨h1, _, h3⟩ := h hlt
+  exact ⟨h1, h3⟩
+
 -- non-vacuity (tests, by evaluation): buffer 1500; TSN 12 (1200 bytes) leaves credit 300; TSN 14 (500 bytes) is
 -- stored (credit > 0) and exhausts it; TSN 16 is refused at zero credit (not below the highest TSN, 14);
 -- TSN 13 is stored at zero credit (fills a gap below 14).
@@ -120,6 +161,8 @@ private def dc (t n : Nat) : Reasm.Chunk :=
   { tsn := BitVec.ofNat 32 t, si := 1, ssn := BitVec.ofNat 16 (t - 10), bf := true, ef := true, ppi := 51,
     userData := List.replicate n 7 }
 private def z0 : St := run (init 1500 0 false true false 0 10#32) [.data (dc 12 1200), .data (dc 14 500)]
+-- the hypotheses of `C11_bytes_bound` are satisfiable: chunks of at most 1200 bytes, buffer 1500
+example : (1500#32).toNat + 40000 * 1200 < 2^32 := by decide
 set_option maxRecDepth 1000000 in
 example : credit z0 = 0 ∧ heldAll z0 = 1700 := by decide
 set_option maxRecDepth 1000000 in
